@@ -255,9 +255,10 @@ def make_module(plan):
             setattr(m, k, getattr(sqlite3, k))
 
     def connect(*a, **kw):
-        f = plan.point("connect", None)
+        pl = m.plan            # looked up at call time: a long-lived engine can be given a fresh Plan per run
+        f = pl.point("connect", None)
         _raise(f, "connect", None)
-        return PConn(sqlite3.connect(*a, **kw), plan)
+        return PConn(sqlite3.connect(*a, **kw), pl)
 
     m.connect = connect
     m.plan = plan
